@@ -169,15 +169,19 @@ func (ss *vSession) tracked(vb int) *models.Offset {
 	return o
 }
 
+// vFewKinds: the harness varies history length or vBucket count, not event kinds
+// (all kinds are explored by the base K=4, V=2 harnesses of the thorough tier).
+var vFewKinds bool
+
 func vControlKinds() int {
-	if tierThorough() {
+	if tierThorough() && !vFewKinds {
 		return 7
 	}
 	return 2
 }
 
 func vDocKinds() int {
-	if tierThorough() {
+	if tierThorough() && !vFewKinds {
 		return 3
 	}
 	return 1
